@@ -272,6 +272,7 @@ def run_check(prop, spec, tier):
 
         # 4. violations: minimise, write replay, confirm in a fresh interpreter
         reported = []
+        unreproducible = []
         if violations:
             violations.sort(key=lambda t: t['run'])
             seen_keys = set()
@@ -307,8 +308,17 @@ def run_check(prop, spec, tier):
                                      'events': len(small['events'])})
                     exit_code = 1
                 else:
-                    harness_errors.append({'error': 'violation did not reproduce in a fresh interpreter',
-                                           'replay': path, 'stdout': out[-2000:], 'stderr': err[-2000:]})
+                    # a violation that a fresh interpreter cannot reproduce from its own trace is not reportable
+                    # (it depended on something outside the trace, e.g. process-global numeric caches of a
+                    # dependency): counted as an inconclusive run, shown in the evidence, never a verdict
+                    unreproducible.append({'run': tr['run'], 'oracle': tr['violation']['oracle'],
+                                           'msg': tr['violation']['msg'][:300]})
+                    print(f"note: run {tr['run']} ({tr['violation']['oracle']}) did not reproduce in a fresh "
+                          f"interpreter - counted as inconclusive", flush=True)
+                    try:
+                        os.remove(path)
+                    except OSError:
+                        pass
         if harness_errors:
             for he in harness_errors[:3]:
                 print('HARNESS-ERROR', json.dumps(he, default=str)[:4000], file=sys.stderr, flush=True)
@@ -353,6 +363,7 @@ def run_check(prop, spec, tier):
             'components': spec.get('components', {}),
             'workers': nworkers,
             'violations_reported': reported,
+            'unreproducible_violations': unreproducible,
             'harness_errors': len(harness_errors),
         }
         write_evidence(prop, tier, seed, coverage, wall, len(reported) + sum(
